@@ -241,7 +241,7 @@ def r3(repo, chk):
     ok = len(sets) == 1
     block_atom = None
     if ok:
-        lg = g.lexical_guards(sets[0], expand=False)
+        lg = g.lexical_guards(sets[0], expand=True)
         cand = [a for a in lg if "max_streams" in a[0]]
         ok = len(cand) == 1 and cand[0] == natom("stream_id // 4 >= max_streams")
         block_atom = cand[0] if cand else None
